@@ -181,6 +181,15 @@ def guards_of(node, stop=None):
                         if names_in(g.test) & _assigned_names(between):
                             continue
                         guards.append(g)
+                    elif isinstance(st, ast.If) and always_exits(st.body) and st.orelse:
+                        # `if a: <exits> elif b: <exits> ...` -- whoever gets past the statement has a false, and b false if the
+                        # chain continues with exiting arms (a trailing arm that falls through adds nothing)
+                        cur_if = st
+                        while isinstance(cur_if, ast.If) and always_exits(cur_if.body):
+                            if not (names_in(cur_if.test) & _assigned_names(between)):
+                                guards.append(Guard(cur_if.test, False, 'exit', cur_if))
+                            nxt = cur_if.orelse
+                            cur_if = nxt[0] if len(nxt) == 1 and isinstance(nxt[0], ast.If) else None
                 if isinstance(p, ast.If):
                     guards.append(Guard(p.test, fld == 'body', 'if', p))
                 elif isinstance(p, ast.While) and fld == 'body':
